@@ -219,7 +219,11 @@ fn generate(rng: &mut Rng) -> Generated {
                 // delivers it to the pending cons
                 forms.push(format!("(define kk{} #f)", p));
                 forms.push(format!("(define n{} 0)", p));
-                forms.push(format!("(define cell{p} (cons {e1} (call/cc (lambda (c) (set! kk{p} c) 'first))))", p = p, e1 = e1));
+                forms.push(format!("(define cell{} #f)", p));
+                forms.push(format!("(begin (set! cell{p} (cons {e1} (call/cc (lambda (c) (set! kk{p} c) 'first)))) 'captured)", p = p, e1 = e1));
+                // the first result is dropped: from here on the symbol is referenced only by the
+                // stack saved in the continuation
+                forms.push(format!("(set! cell{} #f)", p));
                 forms.push(garbage);
                 forms.push(format!("(if (< n{p} 1) (begin (set! n{p} (+ n{p} 1)) (kk{p} 'second)) 'no)", p = p));
                 forms.push(format!("(eq? (car cell{}) {})", p, e2));
